@@ -1,32 +1,43 @@
 /* Contracts of the MemoryPool helpers that extracted kernels call (rule R7).
  * They are *proved* against the generic arms cut from kernel/util/memory_pool.hpp by
- * contracts/C01/mp_set_memory.spec and mp_copy.spec; callers see only these contracts
- * (goto-instrument --replace-call-with-contract).  gmk is a ghost (Skolem) index: the
- * contracts hold for every value of gmk, callers instantiate it with their own ghost index. */
+ * contracts/C01/mp_set_memory.spec and mp_copy.spec, which use the very same MP_*_ENSURES /
+ * MP_*_ASSIGNS macros; callers see only these contracts (goto-instrument
+ * --replace-call-with-contract).  gmk is a ghost (Skolem) index: the contracts hold for every
+ * value of gmk, callers instantiate it with their own ghost index. */
 #ifndef VERIF_MEMORY_POOL_H
 #define VERIF_MEMORY_POOL_H
 #ifndef NMAX
 #define NMAX 0x3fffffffUL
 #endif
 Index gmk;
+/* element equality that is also true for two NaNs (so that an assumed ensures never excludes NaN data) */
+#ifdef FEAT_FP
+#define MP_SAME(a, b) ((a) == (b) || ((a) != (a) && (b) != (b)))
+#else
+#define MP_SAME(a, b) ((a) == (b))
+#endif
+#define MP_SET_ENSURES  __CPROVER_ensures(gmk < count ==> MP_SAME(address[gmk], val))
+#define MP_COPY_ENSURES __CPROVER_ensures((dest != src && gmk < count) ==> MP_SAME(dest[gmk], src[gmk]))
 
+#ifndef MP_NO_DECL
 void MemoryPool_set_memory(DT_ * address, const DT_ val, const Index count)
 __CPROVER_requires(count <= NMAX)
 __CPROVER_requires(count == 0 || __CPROVER_w_ok(address, count * sizeof(DT_)))
 __CPROVER_assigns(count != 0 : __CPROVER_object_upto(address, count * sizeof(DT_)))
-__CPROVER_ensures(gmk < count ==> address[gmk] == val)
+MP_SET_ENSURES
 ;
 
 void MemoryPool_copy(DT_ * dest, const DT_ * src, const Index count)
 __CPROVER_requires(count <= NMAX)
 __CPROVER_requires(dest == src || count == 0 || (__CPROVER_w_ok(dest, count * sizeof(DT_)) && __CPROVER_r_ok(src, count * sizeof(DT_)) && !__CPROVER_same_object(dest, src)))
 __CPROVER_assigns(dest != src && count != 0 : __CPROVER_object_upto(dest, count * sizeof(DT_)))
-__CPROVER_ensures((dest != src && gmk < count) ==> dest[gmk] == src[gmk])
+MP_COPY_ENSURES
 ;
 
 #ifdef VERIF_BOUNDED
 /* bodies used only by the bounded counterexample search (never by a proof): direct models of the contracts above */
 void MemoryPool_set_memory(DT_ * address, const DT_ val, const Index count) { for(Index i = 0; i < count; ++i) address[i] = val; }
 void MemoryPool_copy(DT_ * dest, const DT_ * src, const Index count) { if(dest == src) return; for(Index i = 0; i < count; ++i) dest[i] = src[i]; }
+#endif
 #endif
 #endif
